@@ -1,7 +1,7 @@
 #!/bin/bash
 # regression under another VERIF_SEED (checks must stay quiet for every seed)
 HERE="$(cd "$(dirname "$0")/.." && pwd)"
-export VERIF_SEED=$1 VERIF_WORK=$HERE/work_seedvar_$1 VERIF_EVID=/tmp/seedvar_$1_evid VERIF_REPLAYS=/tmp/seedvar_$1_replays
+export VERIF_TLC_CACHE_DIR=/tmp/verif_tlc_cache VERIF_SEED=$1 VERIF_WORK=$HERE/work_seedvar_$1 VERIF_EVID=/tmp/seedvar_$1_evid VERIF_REPLAYS=/tmp/seedvar_$1_replays
 cd $HERE
 for C in C01 C02 C03 C04 C05 C06 C07 C08 C09 C10 C11 C12 C13 C14 C15 C16; do
   s=$(date +%s)
